@@ -7,7 +7,9 @@
 (*    leafs (seq of [t, legs, size]),                                      *)
 (*    stats [flops, write, size], mult, sliced_inputs, pre,                *)
 (*    peaks (seq of [seq, peak]), combo [factor, value], exec (seq of      *)
-(*    [n, lsize, rsize, psize]), preexec (seq of [t, size])]               *)
+(*    [n, lsize, rsize, psize]), preexec (seq of [t, size]),               *)
+(*    view [inputs, output, shapes, nslices] (what one slice looks like:   *)
+(*    get_inputs_sliced / get_output_sliced / get_shapes_sliced / nslices)]*)
 (* every figure is what the implementation reported; Clause names the      *)
 (* first one that disagrees with the definition, or "ok".                  *)
 (***************************************************************************)
@@ -68,6 +70,15 @@ Clause(c) ==
     ELSE IF c.combo.value # Combo(c.net, ch, c.sliced, c.combo.factor) THEN "combo"
     ELSE IF c.sliced_inputs # SlicedInputs(c.net, c.sliced) THEN "sliced-inputs"
     ELSE IF c.pre # PreLeaves(c.net, c.sliced) THEN "preprocessing"
+    ELSE IF c.view.inputs # [t \in DOMAIN c.net.inputs |-> SelectSeq(c.net.inputs[t], LAMBDA ix : ix \notin Sl)]
+        THEN "sliced-view-inputs"
+    ELSE IF c.view.output # SelectSeq(c.net.output, LAMBDA ix : ix \notin Sl) THEN "sliced-view-output"
+    ELSE IF c.view.shapes # [t \in DOMAIN c.net.inputs |->
+                                LET u == SelectSeq(c.net.inputs[t], LAMBDA ix : ix \notin Sl) IN
+                                [k \in DOMAIN u |-> c.net.dim[u[k]]]]
+        THEN "sliced-view-shapes"
+    ELSE IF c.view.nslices # Prod(c.net, {c.sliced[k].ind : k \in {j \in DOMAIN c.sliced : c.sliced[j].project = -1}})
+        THEN "nslices"
     ELSE LET pc == FirstBad(DOMAIN c.peaks, LAMBDA k : PeakClause(c, ch, k)) IN
     IF pc # "ok" THEN pc
     ELSE LET ec == FirstBad(DOMAIN c.exec, LAMBDA k : ExecClause(c, ch, Sl, k)) IN
